@@ -8,6 +8,9 @@ ODO = [("QuartzModel.Proofs.Odometer", t) for t in ["Odo.findForward_spec", "Odo
 
 # the dispatch step and the API calls are atomic with respect to each other because of the queue lock: its facts are obligations
 # of every property that reasons with atomic steps
+# the loop's timer channel never carries a stale tick (old timer-channel semantics): obligation of everything that reasons about when ticks happen
+TIMERFACTS = [("QuartzModel.Theorems.TimerFacts", "Facts.timer_drained_after_interrupt")]
+
 SCHEDFACTS = [("QuartzModel.Theorems.SchedFacts", "Sched." + t) for t in ["validate_branches", "misfire_offer_nonblocking", "step_order", "classify_spec"]] + \
              [("QuartzModel.Theorems.C09Lin", "Sched.C09_lock_facts"), ("QuartzModel.Theorems.C09Lin", "Sched.C09_unlocked_are_reads"),
               ("QuartzModel.Theorems.MissingLocks", "Facts.missing_none_locks")]
@@ -18,13 +21,13 @@ COMPOSE = [("QuartzModel.Theorems.Compose", "Sched." + t) for t in [
     "parsed_cron_job_runs_only_at_matching_instants", "parsed_cron_job_never_early"]]
 
 THEOREMS = {
-    "C05": [("QuartzModel.Theorems.MissingWakeup", "Facts.missing_none_wakeup")] + [("QuartzModel.Theorems.C05", "Wakeup." + t) for t in [
+    "C05": TIMERFACTS + [("QuartzModel.Theorems.MissingWakeup", "Facts.missing_none_wakeup")] + [("QuartzModel.Theorems.C05", "Wakeup." + t) for t in [
         "C05_facts_wf", "C05_invariant", "C05_parked_correct", "C05_never_lost", "C05_token_rereads", "C05_send_never_blocks", "C05_holds",
         "C05_lost_unbuffered", "C05_lost_without_send", "C05_lost_send_before", "C05_lost_without_reread", "C05_blocking_send_deadlocks"]] +
            [("QuartzModel.Proofs.WakeupLemmas", "Wakeup.inv_step"), ("QuartzModel.Proofs.WakeupLemmas", "Wakeup.inv_run")] +
            # a fire time beyond the largest representable time does not get ahead of the due jobs (the loop neither spins nor starves them)
            [("QuartzModel.Theorems.C04", "Sched." + t) for t in ["C04_saturates", "C04_saturated_not_due", "C04_saturated_never_spins"]],
-    "C15": [("QuartzModel.Theorems.MissingFaults", "Facts.missing_none_faults")] + [("QuartzModel.Theorems.C15", "Faults." + t) for t in [
+    "C15": TIMERFACTS + [("QuartzModel.Theorems.MissingFaults", "Facts.missing_none_faults")] + [("QuartzModel.Theorems.C15", "Faults." + t) for t in [
         "C15_facts_wf", "C15_facts_api", "C15_facts_dispatch", "C15_backoff_step", "C15_backoff", "C15_holds", "C15_backoff_fails_without_flag",
         "C15_interrupts_postpone_recovery", "C15_api_propagates", "C15_api_nil_only_if_all_ok", "C15_dispatch_after_pop", "C15_one_push_per_pop",
         "C15_iter_calls", "C15_no_double_fire", "C15_deadline_not_postponed", "C15_recovers",
@@ -73,7 +76,7 @@ THEOREMS = {
         # the expiry clause at full strength (instants) is FALSE for the code as it is: proved negation with a witness that qh dst replays (known finding)
         "C14_expiry_full_fails"]] +
            [("QuartzModel.Proofs.ZoneLemmas", "Cron.zoneLoop_spec"), ("QuartzModel.Proofs.ZoneLemmas", "Cron.zoneLoop_fuel")] + FACTS[:2],
-    "C03": COMPOSE[:3] + COMPOSE[8:] + SCHEDFACTS + [("QuartzModel.Theorems.C03", "Sched." + t) for t in ['C03_dispatch_has_entry', 'C03_never_early', 'C03_dispatch_is_popped_min', 'C03_own_trigger_once', 'C03_dispatch_answers_own_trigger', 'C03_at_most_once']], "C04": COMPOSE[3:8] + SCHEDFACTS + [("QuartzModel.Theorems.C04", "Sched." + t) for t in ['C04_accounted', 'C04_suspended_untouched', 'C04_misfire_iff_late', 'C04_misfire_only_if_late', 'C04_leaves_registry', 'C04_no_drift', 'C04_no_drift_start', 'C04_run_once', 'C04_hyps_reachable',
+    "C03": TIMERFACTS + COMPOSE[:3] + COMPOSE[8:] + SCHEDFACTS + [("QuartzModel.Theorems.C03", "Sched." + t) for t in ['C03_dispatch_has_entry', 'C03_never_early', 'C03_dispatch_is_popped_min', 'C03_own_trigger_once', 'C03_dispatch_answers_own_trigger', 'C03_at_most_once']], "C04": COMPOSE[3:8] + SCHEDFACTS + [("QuartzModel.Theorems.C04", "Sched." + t) for t in ['C04_accounted', 'C04_suspended_untouched', 'C04_misfire_iff_late', 'C04_misfire_only_if_late', 'C04_leaves_registry', 'C04_no_drift', 'C04_no_drift_start', 'C04_run_once', 'C04_hyps_reachable',
         'C04_saturates', 'C04_interval_answer', 'C04_saturated_registered', 'C04_saturated_not_due', 'C04_saturated_never_spins',
         'wrapAdd_neg', 'C04_addNanos_is_satAdd', 'C04_overflow_spins_unrepaired']] +
            [("QuartzModel.Proofs.SchedLemmas", "Sched." + t) for t in ['satAdd_eq', 'satAdd_sat', 'satAdd_le', 'satAdd_ge', 'no_drift_aux', 'parked_aux']] +
